@@ -361,6 +361,57 @@ func runC08(c *core.Ctx, r *core.Result) {
 		}
 	}
 
+	// ---------- family 4b: valid oracle AND staking price records that disagree (out of each other's tolerance band),
+	// in every 2.x era: whatever the daemon decides to record, the block must be applied
+	bidx := 0
+	for _, st := range []int{drive.StV20, drive.StV20Dev, drive.StV202, drive.StPIP10} {
+		era := drive.EraStage(st)
+		for _, dev := range []struct {
+			name string
+			mul  uint64
+			div  uint64
+		}{{"spr-eur-x2.5", 5, 2}, {"spr-eur-+0.5%", 201, 200}, {"spr-eur-+5%", 21, 20}, {"spr-eur-/3", 1, 3}} {
+			for _, pending := range []bool{false, true} {
+				bidx++
+				key := fmt.Sprintf("%s/band/%s/pending=%v", era.Name, dev.name, pending)
+				if !(c.Mine(bidx) || c.Only != "") || !c.Want(key) {
+					continue
+				}
+				r.Eval()
+				r.NonTrivial(key)
+				out := func() drive.Outcome {
+					w, err := NewWorld(era, func(b *drive.Builder) {
+						FundStd(b)
+						s := drive.BlockSpec{Rates: R1(), OPRPayTo: kit.AddrStr(KM)}
+						if pending {
+							s.TX = []fake.Entry{b.Tx(KA, kit.Conversion(AddrA, "pUSD", 5e8, "pEUR"))}
+						}
+						b.Add(s)
+						h := b.Next()
+						sr := R1().With("EUR", 12e7*dev.mul/dev.div)
+						b.Add(drive.BlockSpec{Rates: R1(), OPRPayTo: kit.AddrStr(KM), SPR: sprSet(era, h, sr, AddrA[:], KA, 25),
+							TX: []fake.Entry{b.Tx(KA, kit.Transfer(AddrA, "pUSD", 1e8, AddrB))}})
+						b.Add(drive.BlockSpec{Rates: R2(), OPRPayTo: kit.AddrStr(KM)})
+						b.Add(drive.BlockSpec{Rates: R1(), OPRPayTo: kit.AddrStr(KM)})
+					})
+					if err != nil {
+						if we, ok := err.(*WorldError); ok {
+							return we.Out
+						}
+						panic("harness: " + err.Error())
+					}
+					w.Close()
+					return drive.Outcome{Reached: true}
+				}()
+				r.Outcome("band:" + outcomeClass(out))
+				if !out.Reached {
+					r.Violate(core.Violation{Key: key, Signature: c08Sig(era, "opr-spr-disagree", []string{dev.name}, out),
+						Desc: "valid oracle and staking price records that disagree with each other make the block unsyncable: " + out.String()})
+				}
+			}
+		}
+	}
+
 	// ---------- family 5: snapshot heights with / without rates, per 2.x era
 	for _, st := range []int{drive.StV20, drive.StV20Dev, drive.StV202, drive.StPIP10} {
 		era := drive.EraStage(st)
